@@ -32,7 +32,8 @@ ANCHORS = [
     ("pycomm3/packets/logix.py", "ReadTagFragmentedResponsePacket._parse_reply"), ("pycomm3/packets/logix.py", "MultiServiceResponsePacket._parse_reply"),
     ("pycomm3/logix_driver.py", "LogixDriver._send_requests"), ("pycomm3/cip/services.py", "Services.from_reply"),
 ]
-KINDS = ["gm_conn", "gm_ucmm", "gm_usend", "read1", "write1", "rmw", "readfrag", "writefrag", "multi-read", "multi-write", "slc-read", "slc-write"]
+KINDS = ["gm_conn", "gm_ucmm", "gm_usend", "read1", "write1", "rmw", "readfrag", "writefrag", "multi-read", "multi-write", "slc-read", "slc-write",
+         "gm_conn_typed", "gm_ucmm_typed"]   # generic messages whose reply data is decoded with a supplied data type
 CONTINUING_DONT_CARE = {0x03, 0x0A, 0x53}
 
 
@@ -54,6 +55,10 @@ def do(sc, kind, rng):
         return b.call(kind, d.generic_message, service=0x0E, class_code=0x01, instance=1, attribute=1, connected=False)
     if kind == "gm_usend":
         return b.call(kind, d.generic_message, service=0x0E, class_code=0x01, instance=1, attribute=1, connected=False, unconnected_send=True)
+    if kind in ("gm_conn_typed", "gm_ucmm_typed"):
+        import pycomm3
+        # Identity attribute 1 (vendor id) decoded as UINT: on a refusal the bytes after the status words are NOT a UINT to decode
+        return b.call(kind, d.generic_message, service=0x0E, class_code=0x01, instance=1, attribute=1, connected=kind == "gm_conn_typed", data_type=pycomm3.UINT)
     if kind == "slc-read":
         return b.call(kind, d.read, "N7:3")
     if kind == "slc-write":
@@ -77,7 +82,7 @@ def do(sc, kind, rng):
 
 def service_of(kind):
     return {"gm_conn": 0x01, "gm_ucmm": 0x0E, "gm_usend": 0x0E, "read1": 0x4C, "write1": 0x4D, "rmw": 0x4E, "readfrag": 0x52, "writefrag": 0x53,
-            "multi-read": 0x0A, "multi-write": 0x0A, "slc-read": 0x4B, "slc-write": 0x4B}[kind]
+            "multi-read": 0x0A, "multi-write": 0x0A, "slc-read": 0x4B, "slc-write": 0x4B, "gm_conn_typed": 0x0E, "gm_ucmm_typed": 0x0E}[kind]
 
 
 class SLCScenario:
@@ -169,7 +174,8 @@ def run(ctx):
                     for ext in ext_opts:
                         cnt = {"n": 0}
                         # an error reply may carry data after its status words (CIP Vol 1, 2-4.2); it is an error all the same
-                        errdata = b"" if rng.random() < 0.6 else bytes(rng.choice([0, 0, rng.randrange(256)]) for _ in range(rng.choice([2, 8, 20, 40])))
+                        # (lengths 1 and 3 too: bytes that cannot even be decoded as the data type a typed generic message asked for)
+                        errdata = b"" if rng.random() < 0.6 else bytes(rng.choice([0, 0, rng.randrange(256)]) for _ in range(rng.choice([1, 1, 2, 3, 8, 20, 40])))
 
                         def force(rq, status=status, ext=ext, cnt=cnt, pos=pos, svc=svc, errdata=errdata):
                             if rq.service != svc or rq.embedded:
@@ -278,6 +284,9 @@ def run(ctx):
         for pos in range(1, nrep + 1):
             for est in (0x01, 0x02, 0x03, 0x64, 0x65, 0x69):
                 faults.append((kind, pos, ("encap", est)))
+            # any non-zero encapsulation status - also one the library has no text for - on a reply that still carries its body
+            for est in (0x01, 0x04, 0x66, 0x100, 0x10000, 0x80000000, 0xFFFFFFFF):
+                faults.append((kind, pos, ("encapfull", est)))
             for n in list(range(0, 80)) + [90, 120]:
                 faults.append((kind, pos, ("trunc", n)))
             for r_ in range(12 if quick else 400):
@@ -306,7 +315,7 @@ def run(ctx):
                     sc = None
                     continue
             state = {"n": 0, "orig": None}
-            kinds_of_reply = "unit" if kind not in ("gm_ucmm", "gm_usend") else "rr"
+            kinds_of_reply = "unit" if kind not in ("gm_ucmm", "gm_usend", "gm_ucmm_typed") else "rr"
             sock = getattr(sc.drv, "_sock", None)
             if sock is None or not hasattr(sock, "receive"):
                 res.inconc("driver has no _sock.receive to inject short replies below the transport")
@@ -366,6 +375,8 @@ def run(ctx):
                     elif v == "drop-offsets":
                         return relen(f_[:52])
                     return bytes(f_)
+                if fault[0] == "encapfull":  # the complete reply, but its encapsulation status says the request failed
+                    return frame[:8] + fault[1].to_bytes(4, "little") + frame[12:]
                 if fault[0] == "encap":  # header-only encapsulation error reply
                     return frame[:2] + (0).to_bytes(2, "little") + frame[4:8] + fault[1].to_bytes(4, "little") + frame[12:24]
                 if fault[0] == "trunc":
@@ -407,17 +418,17 @@ def run(ctx):
             if st == "exc":
                 if not isinstance(out, PycommError):
                     res.violation(f"foreign-exception:{kind}:{fault[0]}:{type(out).__name__}", f"{kind}: reply fault {fault} (reply #{pos}) made the public call raise {type(out).__name__}: {out!s:.140}", wit)
-                elif fault[0] == "encap":
-                    res.violation(f"encapsulation-error-raises:{kind}:{type(out).__name__}", f"{kind}: a header-only encapsulation error {fault[1]:#x} made the call raise {out!r:.140} instead of returning a falsy result", wit)
+                elif fault[0] in ("encap", "encapfull"):
+                    res.violation(f"encapsulation-error-raises:{kind}:{type(out).__name__}", f"{kind}: an encapsulation error {fault[1]:#x} ({fault[0]}) made the call raise {out!r:.140} instead of returning a falsy result", wit)
                 continue
             if state["orig"] is None:
                 continue
             status_off = 49 if kinds_of_reply == "unit" else 43
             if kind.startswith("slc"):
                 status_off = 59  # the PCCC STS byte behind the requester id
-            if fault[0] == "encap":
+            if fault[0] in ("encap", "encapfull"):
                 if truthy(out):
-                    res.violation(f"encapsulation-error-reported-as-success:{kind}", f"{kind}: header-only encapsulation error {fault[1]:#x} -> {out!r:.200}", wit)
+                    res.violation(f"encapsulation-error-reported-as-success:{kind}:{fault[0]}", f"{kind}: encapsulation status {fault[1]:#x} ({'header only' if fault[0] == 'encap' else 'reply body intact'}) -> {out!r:.200}", wit)
                 else:
                     for t in (out if isinstance(out, list) else [out]):
                         if hasattr(t, "error") and (not t.error or not str(t.error).strip()):
